@@ -413,8 +413,93 @@ func clientHistories(n int) func() {
 		vrt.Observe("%s", log)
 	}
 }
+// secondLife: the same Actor is added to the service again after its first
+// life ended (removal or remote terminate), or after a first activation that
+// failed: the second life behaves like the first - callable, subscribers told
+// at its end, hook run once per life, unreachable afterwards.
+func secondLife() {
+	w := fx.Start(bus.Yes{})
+	c := w.MustConnect()
+	impl := probe.New("again")
+	actor := probe.ProbeObject(impl)
+	first := vrt.ChooseFree(3, "first life ends by: Remove / remote terminate / its activation fails")
+	second := vrt.ChooseFree(2, "second life ends by: Remove / remote terminate")
+	vrt.Explore()
+	hooks := 0
+	life := func(n int, how int) {
+		ctx := fmt.Sprintf("life %d (first life ended by variant %d)", n, first)
+		id, err := w.Service.Add(actor)
+		if err != nil {
+			vrt.Failf("add-failed/"+fmt.Sprint(n), "%s: Add failed: %v", ctx, err)
+			return
+		}
+		vrt.Quiesce()
+		p := c.Probe(id)
+		if v, err := p.Echo(int32(n)); err != nil || v != probe.EchoResult(int32(n)) {
+			vrt.Failf("live-object-refuses/second-life", "%s: echo on the object returned %d, %v", ctx, v, err)
+			return
+		}
+		s := &sub{}
+		// the subscriber has its own connection (and so its own local
+		// subscription bookkeeping) in each life
+		cs := w.MustConnect()
+		if _, ch, err := cs.Probe(id).SubscribeTick(); err != nil {
+			vrt.Failf("live-object-refuses/second-life", "%s: subscribing failed: %v", ctx, err)
+		} else {
+			vrt.GoNamed(fmt.Sprintf("sub-drain-%d", n), func() {
+				for v := range ch {
+					s.got = append(s.got, v)
+				}
+				s.closed = true
+			})
+		}
+		vrt.Quiesce()
+		if how == 0 {
+			err = w.Service.Remove(id)
+		} else {
+			err = p.Terminate(id)
+		}
+		vrt.Quiesce()
+		if err != nil {
+			vrt.Failf("remove-failed/second-life", "%s: ending the life failed: %v", ctx, err)
+		}
+		hooks++
+		if impl.Terminated != hooks {
+			vrt.Failf(fmt.Sprintf("terminate-hook-count/second-life/%d-of-%d", impl.Terminated, hooks), "%s: the termination hook ran %d times in total, %d lives ended", ctx, impl.Terminated, hooks)
+		}
+		if !s.closed {
+			vrt.Failf("subscriber-not-told/second-life", "%s: the object was removed but its subscriber's channel is still open", ctx)
+		}
+		before := impl.Total()
+		if v, err := p.Echo(9); err == nil {
+			vrt.Failf("removed-object-answers/second-life", "%s: echo on the removed object succeeded (returned %d)", ctx, v)
+		} else if impl.Total() != before {
+			vrt.Failf("removed-object-invoked/second-life", "%s: a call to the removed object ran the method", ctx)
+		}
+		vrt.Quiesce()
+	}
+	if first == 2 {
+		impl.FailAct = true
+		if _, err := w.Service.Add(actor); err == nil {
+			vrt.Failf("harness/failed-activation", "Add succeeded although the activation failed")
+		}
+		vrt.Quiesce()
+		// a failed activation is not a life: the hook may or may not have run
+		hooks = impl.Terminated
+	} else {
+		life(1, first)
+	}
+	life(2, second)
+	if v, err := c.Probe(1).Echo(3); err != nil || v != probe.EchoResult(3) {
+		vrt.Failf("other-object-affected", "the service object no longer answers: %v", err)
+	}
+	fx.Settle()
+	vrt.Observe("first=%d second=%d hooks=%d", first, second, impl.Terminated)
+}
 
 func init() {
+	reg.Register(&reg.Scenario{Property: "C16", Name: "actor-second-life", Body: secondLife, Quick: 1, Thorough: 2,
+		Doc: "the same Actor is added again after its first life ended (Remove / remote terminate) or after a failed activation; each life: callable, a subscriber, ended by Remove or remote terminate; hook once per life, subscriber told, unreachable afterwards"})
 	reg.Register(&reg.Scenario{Property: "C16", Name: "client-objects-histories-6", Body: clientHistories(6), Quick: 0, Thorough: 0,
 		Doc: "client-side service reference: every sequence of <=6 operations {add, remove(0..3)} against the model (identifiers unique among live objects, own implementation reached, hooks exactly once)"})
 	reg.Register(&reg.Scenario{Property: "C16", Name: "client-objects-histories-7", Body: clientHistories(7), Quick: -1, Thorough: 0,
